@@ -254,10 +254,16 @@ impl Local {
     let publ = dp.create_publisher(&q0).map_err(|e| format!("{e:?}"))?;
     let mut readers = vec![];
     let mut writers = vec![];
-    for (i, t) in TOPICS.iter().enumerate() {
-      let topic = dp.create_topic(t.to_string(), "KMsg".to_string(), &q0, TopicKind::WithKey).map_err(|e| format!("{e:?}"))?;
-      readers.push(sub.create_datareader_cdr::<KMsg>(&topic, Some(reader_q[i].build())).map_err(|e| format!("{e:?}"))?);
-      writers.push(publ.create_datawriter_cdr::<KMsg>(&topic, Some(writer_q[i].build())).map_err(|e| format!("{e:?}"))?);
+    // local endpoint i sits on topic i % 2: readers 0 and 2 share a topic
+    let mut topics = vec![];
+    for t in TOPICS.iter() {
+      topics.push(dp.create_topic(t.to_string(), "KMsg".to_string(), &q0, TopicKind::WithKey).map_err(|e| format!("{e:?}"))?);
+    }
+    for (i, q) in reader_q.iter().enumerate() {
+      readers.push(sub.create_datareader_cdr::<KMsg>(&topics[i % 2], Some(q.build())).map_err(|e| format!("{e:?}"))?);
+    }
+    for (i, q) in writer_q.iter().enumerate() {
+      writers.push(publ.create_datawriter_cdr::<KMsg>(&topics[i % 2], Some(q.build())).map_err(|e| format!("{e:?}"))?);
     }
     let tw = dp.create_topic(MK_W_TOPIC.to_string(), "KMsg".to_string(), &q0, TopicKind::WithKey).map_err(|e| format!("{e:?}"))?;
     let tr = dp.create_topic(MK_R_TOPIC.to_string(), "KMsg".to_string(), &q0, TopicKind::WithKey).map_err(|e| format!("{e:?}"))?;
@@ -397,7 +403,7 @@ fn palette(rng: &mut Rng) -> Q {
 }
 
 pub fn gen_scenario(rng: &mut Rng, max_events: u64, with_timeouts: bool) -> Scenario {
-  let reader_q = vec![palette(rng), palette(rng)];
+  let reader_q = vec![palette(rng), palette(rng), palette(rng)];
   let writer_q = vec![palette(rng), palette(rng)];
   let nf = 2 + rng.below(2) as usize;
   let mut leases = vec![];
@@ -409,7 +415,8 @@ pub fn gen_scenario(rng: &mut Rng, max_events: u64, with_timeouts: bool) -> Scen
       let is_writer = rng.chance(1, 2);
       let mut g = [0u8; 16];
       g[12] = 0;
-      g[13] = f as u8 + 1;
+      g[13] = 1; // the same entity ids in every participant, as sequential allocation gives in reality
+      let _ = f;
       g[14] = e as u8 + 1;
       g[15] = if is_writer { 0x02 } else { 0x07 };
       // 50%: copy the local counterpart's QoS (surely compatible), else random
@@ -534,8 +541,8 @@ pub fn run_scenario(sc: &Scenario, domain: u16, prop: SProp, acc: &mut Acc, tag:
     last_total: i32,
     last_current: i32,
   }
-  let mut lr = vec![LState::default(); 2];
-  let mut lw = vec![LState::default(); 2];
+  let mut lr = vec![LState::default(); sc.reader_q.len()];
+  let mut lw = vec![LState::default(); sc.writer_q.len()];
 
   // ---- settle: the local participant matches its own reader/writer pairs (same topic)
   // right after creation; those matches are the baseline of every set.
@@ -567,10 +574,17 @@ pub fn run_scenario(sc: &Scenario, domain: u16, prop: SProp, acc: &mut Acc, tag:
   let baseline_w: Vec<BTreeSet<[u8; 16]>> = lw.iter().map(|s| s.set.clone()).collect();
   let local_prefix_for_filter = lp;
 
-  let compatible = |ep: &EpDef, sc: &Scenario| -> (bool, Vec<&'static str>) {
-    let inc = if ep.is_writer { qosref::incompatible(&ep.q, &sc.reader_q[ep.topic]) } else { qosref::incompatible(&sc.writer_q[ep.topic], &ep.q) };
+  // remote endpoint vs local endpoint `li` (a reader if the remote is a writer, else a writer)
+  let compatible_with = |ep: &EpDef, sc: &Scenario, li: usize| -> (bool, Vec<&'static str>) {
+    let inc = if ep.is_writer { qosref::incompatible(&ep.q, &sc.reader_q[li]) } else { qosref::incompatible(&sc.writer_q[li], &ep.q) };
     (inc.is_empty(), inc)
   };
+  // local counterparts of a remote endpoint: same topic
+  let locals_of = |ep: &EpDef, sc: &Scenario| -> Vec<usize> {
+    let n = if ep.is_writer { sc.reader_q.len() } else { sc.writer_q.len() };
+    (0..n).filter(|li| li % 2 == ep.topic).collect()
+  };
+  let incompatible_somewhere = |ep: &EpDef, sc: &Scenario| -> bool { locals_of(ep, sc).iter().any(|li| !compatible_with(ep, sc, *li).0) };
 
   // keep-alive of finite-lease participants, called from every wait loop
   let mut keepalive = |fakes: &mut Vec<Fake>, alive: &Vec<bool>| {
@@ -625,17 +639,21 @@ pub fn run_scenario(sc: &Scenario, domain: u16, prop: SProp, acc: &mut Acc, tag:
       for e in v {
         let mut g = e.guid;
         g[0..12].copy_from_slice(&fakes[f].prefix);
-        if announced.contains(&g) && alive[f] && compatible(e, sc).0 {
-          if e.is_writer {
-            want_r[e.topic].insert(g);
-          } else {
-            want_w[e.topic].insert(g);
+        if announced.contains(&g) && alive[f] {
+          for li in locals_of(e, sc) {
+            if compatible_with(e, sc, li).0 {
+              if e.is_writer {
+                want_r[li].insert(g);
+              } else {
+                want_w[li].insert(g);
+              }
+            }
           }
         }
       }
     }
     for (is_reader, states, wants) in [(true, &mut *lr, &want_r), (false, &mut *lw, &want_w)] {
-      for i in 0..2 {
+      for i in 0..states.len() {
         let st = &mut states[i];
         let mine: Vec<&LEvt> = evts.iter().filter(|e| matches!(e, LEvt::Matched { local, is_local_reader, .. } if *local == i && *is_local_reader == is_reader)).collect();
         let changes = st.set.symmetric_difference(&wants[i]).count();
@@ -689,14 +707,15 @@ pub fn run_scenario(sc: &Scenario, domain: u16, prop: SProp, acc: &mut Acc, tag:
             g[0..12].copy_from_slice(&fakes[f].prefix);
             if &g == remote {
               found = true;
-              let (ok, inc) = compatible(ep, sc);
+              if ep.topic != *li % 2 || ep.is_writer != *is_local_reader {
+                viol(acc, SProp::C11, "C11/incompatible:event-on-wrong-local-endpoint".into(), json!({"step": step}));
+                continue;
+              }
+              let (ok, inc) = compatible_with(ep, sc, *li);
               if ok {
                 viol(acc, SProp::C11, "C11/incompatible:event-for-a-compatible-endpoint".into(), json!({"step": step, "remote": crate::ctx::hex(remote), "policy": policy}));
               } else if !inc.contains(&policy.as_str()) {
                 viol(acc, SProp::C11, "C11/incompatible:reported-policy-is-not-incompatible".into(), json!({"step": step, "policy": policy, "really": inc}));
-              }
-              if ep.topic != *li || ep.is_writer != *is_local_reader {
-                viol(acc, SProp::C11, "C11/incompatible:event-on-wrong-local-endpoint".into(), json!({"step": step}));
               }
             }
           }
@@ -758,7 +777,7 @@ pub fn run_scenario(sc: &Scenario, domain: u16, prop: SProp, acc: &mut Acc, tag:
               let mut ep = sc.eps[*f][e].clone();
               ep.guid = g;
               fakes[*f].announce(&ep, &lp, meta);
-              if !compatible(&sc.eps[*f][e], sc).0 {
+              if incompatible_somewhere(&sc.eps[*f][e], sc) {
                 expect_incompatible.push(g);
               }
             }
@@ -777,7 +796,7 @@ pub fn run_scenario(sc: &Scenario, domain: u16, prop: SProp, acc: &mut Acc, tag:
         ep.guid = g;
         fakes[*f].announce(&ep, &lp, meta);
         let first = announced.insert(g);
-        if !compatible(&sc.eps[*f][*e], sc).0 && first {
+        if incompatible_somewhere(&sc.eps[*f][*e], sc) && first {
           expect_incompatible.push(g);
         }
         barrier = Some((*f, ep.is_writer));
@@ -822,8 +841,6 @@ pub fn run_scenario(sc: &Scenario, domain: u16, prop: SProp, acc: &mut Acc, tag:
           announced.remove(&g);
         }
         // give the event loop time to apply the loss to readers/writers
-        let need: usize = (0..2).map(|i| lr[i].set.iter().filter(|g| g[0..12] == pf).count() + lw[i].set.iter().filter(|g| g[0..12] == pf).count()).sum();
-        let _ = need;
         std::thread::sleep(StdDuration::from_millis(150));
       }
       SEv::Timeout { f } => {
